@@ -10,10 +10,44 @@ sys.path.insert(0, os.path.dirname(os.path.abspath(__file__)))
 from common import VERIF
 ALL = ["C%02d" % i for i in range(1, 21)]
 
+CLONES = []   # independent copies of this verif tree (own lean/.lake and build/), one per parallel job
+
+def make_clones(n):
+    """Parallel mutant runs must not share lean/.lake (regenerated Gen files, the driver binary)."""
+    import shutil
+    for i in range(n):
+        c = "/root/wt/probe-%d" % i
+        if not os.path.isdir(c):
+            subprocess.run(["git", "-C", VERIF, "worktree", "add", "--detach", "-f", c, "HEAD"], check=True,
+                           stdout=subprocess.DEVNULL, stderr=subprocess.DEVNULL)
+            os.makedirs(os.path.join(c, "build"), exist_ok=True)
+            for sub in ("obj", "cache", "geninc", "djv", "djv.sig"):
+                src = os.path.join(VERIF, "build", sub)
+                if os.path.isdir(src):
+                    shutil.copytree(src, os.path.join(c, "build", sub))
+                elif os.path.exists(src):
+                    shutil.copy(src, os.path.join(c, "build", sub))
+            shutil.copytree(os.path.join(VERIF, "lean", ".lake"), os.path.join(c, "lean", ".lake"))
+        else:
+            subprocess.run(["git", "-C", c, "checkout", "-q", "--detach", subprocess.run(
+                ["git", "-C", VERIF, "rev-parse", "HEAD"], stdout=subprocess.PIPE, text=True).stdout.strip()])
+        CLONES.append(c)
+
+import threading
+_free = threading.Semaphore(0)
+_pool = []
+_plock = threading.Lock()
+
 def one(rid):
     d = os.path.join(VERIF, "seeded", "refactors", rid)
-    r = subprocess.run([sys.executable, os.path.join(VERIF, "tools", "mutant_run.py"), os.path.join(d, "patch.diff")] + ALL,
-                       stdout=subprocess.PIPE, stderr=subprocess.STDOUT, text=True, cwd=VERIF)
+    with _plock:
+        clone = _pool.pop()
+    try:
+        r = subprocess.run([sys.executable, os.path.join(clone, "tools", "mutant_run.py"), os.path.join(d, "patch.diff")] + ALL,
+                           stdout=subprocess.PIPE, stderr=subprocess.STDOUT, text=True, cwd=clone)
+    finally:
+        with _plock:
+            _pool.append(clone)
     res = {}
     lines = r.stdout.split("\n")
     for i, l in enumerate(lines):
@@ -39,6 +73,8 @@ def main():
     ids = sorted(os.listdir(os.path.join(VERIF, "seeded", "refactors")))
     if a.only:
         ids = [i for i in ids if i in a.only.split(",")]
+    make_clones(a.jobs)
+    _pool.extend(CLONES)
     with ThreadPoolExecutor(a.jobs) as ex:
         for rid, red, n in ex.map(one, ids):
             print("%-12s checks=%d red=%s" % (rid, n, ",".join(red) or "-"), flush=True)
